@@ -15,8 +15,8 @@ Proof.
 Qed.
 
 Theorem normalized_value_refines_known_proof : forall dtd fuel ty lit,
-  KnownEsc dtd = false -> model_value_f fuel dtd ty lit = spec_value_f fuel dtd ty lit.
-Proof. intros dtd fuel ty lit H. apply normalized_value_refines_f, known_esc_simple, H. Qed.
+  KnownEsc dtd = false -> acyclic dtd -> model_value_f fuel dtd ty lit = spec_value_f fuel dtd ty lit.
+Proof. intros dtd fuel ty lit H Hac. apply normalized_value_refines_f; [apply known_esc_simple, H|exact Hac]. Qed.
 
 (** ** acyclicity from a rank *)
 Lemma rank_acyclic (dtd : table) (rk : name -> nat) :
@@ -78,25 +78,19 @@ Proof. intros m Hm. cbn in Hm. destruct Hm as [<-|[]]. left. vm_compute. discrim
 Example ex_model_agrees : model_value ex_dtd (Some TNmtokens) ex_lit = Ok [9; 32; 97; 32; 98; 32; 60].
 Proof. rewrite (normalized_value_refines_proof _ _ _ wf_table_example). exact ex_value_tokens. Qed.
 
-(** ** a reference cycle: the model runs out of every amount of fuel (the real code overflows its
-    stack: defect D09 of property C03) -- and the specification says [Recursion] *)
+(** ** a reference cycle: [expand_entity] finds the name on its stack and reports it (before commit
+    ed2c470 the real code overflowed its stack: defect D09 of property C03), the specification says
+    [Recursion], and the document is refused when it is built *)
 Definition cyc : table := [ (e_x, [EntRef e_y]); (e_y, [EntRef e_x]) ].
 
-Lemma cyc_step f n : (n = e_x \/ n = e_y) ->
-  entity_value_from_name (S f) cyc n
-  = bind (entity_value_from_name f cyc (if str_eqb n e_x then e_y else e_x)) (fun v => Ok ([] ++ v)).
-Proof. intros [->| ->]; reflexivity. Qed.
-
-Example cycle_diverges : forall fuel, model_value_f fuel cyc None [EntRef e_x] = Recursion.
-Proof.
-  assert (G : forall f n, (n = e_x \/ n = e_y) -> entity_value_from_name f cyc n = Recursion).
-  { induction f as [|f IH]; intros n Hn; [reflexivity|]. rewrite (cyc_step f n Hn).
-    rewrite IH; [reflexivity|]. destruct Hn as [-> | ->]; vm_compute; auto. }
-  intros fuel. unfold model_value_f, normalized_value_f, attr_value_from_name. cbn [value_loop].
-  rewrite (G fuel e_x) by auto. reflexivity.
-Qed.
+Example cycle_model : model_value cyc None [EntRef e_x] = IllFormed.
+Proof. vm_compute. reflexivity. Qed.
 Example cycle_spec : spec_value cyc None [EntRef e_x] = Recursion.
 Proof. vm_compute. reflexivity. Qed.
+Example cycle_refused :
+  model_attrs [DEntity e_x [EntRef e_y]; DEntity e_y [EntRef e_x]] [101] [([97], [EntRef e_x])] = IllFormed /\
+  spec_attrs [DEntity e_x [EntRef e_y]; DEntity e_y [EntRef e_x]] [101] [([97], [EntRef e_x])] = IllFormed.
+Proof. split; vm_compute; reflexivity. Qed.
 Example cycle_not_wf : ~ wf_table cyc.
 Proof.
   intros [_ H _]. apply (H e_x). eapply reach_trans; [|apply reach_step].
@@ -122,11 +116,20 @@ Definition n_a : name := [97].
 Definition n_b : name := [98].
 Definition dtd36 : dtd_doc := [ DAttlist n_e [ {| ad_name := n_a; ad_type := TCdata; ad_default := Required |} ] ].
 
+Example dtd36_wf : doc_wf dtd36 [].
+Proof.
+  constructor; [reflexivity| |intros lit []|intros nl []].
+  constructor; [intros n lit m []|intros n R|intros n lit []].
+  assert (G : forall a b, reaches (entities_of dtd36) a b -> False).
+  { intros a b R'. destruct R' as [? ? (l & Hl & _)|? ? ? (l & Hl & _) _]; discriminate Hl. }
+  exact (G n n R).
+Qed.
+
 Theorem attribute_set_refuted_proof :
-  exists d el written, simple_table (entities_of d) /\ no_ns_defs d el /\ Known36 d el written = true /\
+  exists d el written, doc_wf d written /\ no_ns_defs d el /\ Known36 d el written = true /\
     model_attrs d el written <> map_ares (map of_item) (spec_attrs d el written).
 Proof.
-  exists dtd36, n_e, []. split; [intros n lit []|]. split.
+  exists dtd36, n_e, []. split; [exact dtd36_wf|]. split.
   - intros x Hx. vm_compute in Hx. destruct Hx as [<-|[]]. reflexivity.
   - split; [reflexivity|]. vm_compute. discriminate.
 Qed.
@@ -145,8 +148,18 @@ Definition written_ok : list (name * list piece) := [ (n_b, [Text [32; 120; 10]]
 
 Example known36_false : Known36 dtd_ok n_e written_ok = false.
 Proof. vm_compute. reflexivity. Qed.
-Example dtd_ok_simple : simple_table (entities_of dtd_ok).
-Proof. apply known_esc_simple. vm_compute. reflexivity. Qed.
+Example dtd_ok_wf : doc_wf dtd_ok written_ok.
+Proof.
+  constructor; [reflexivity| | |].
+  - constructor.
+    + intros n lit m Hin Hm. cbn in Hin. destruct Hin as [E|[]]. injection E as <- <-. destruct Hm.
+    + apply (rank_acyclic _ (fun _ => 0%nat)). intros n m (lit & Hd & Hm). cbn [entities_of dtd_ok declared] in Hd.
+      destruct (str_eqb e_z n); [injection Hd as <-; destruct Hm|discriminate].
+    + intros n lit Hin. cbn in Hin. destruct Hin as [E|[]]. injection E as <- <-. reflexivity.
+  - intros lit Hin. vm_compute in Hin. destruct Hin as [<-|[<-|[<-|[<-|[]]]]]; intros m Hm; cbn in Hm;
+      repeat (destruct Hm as [<-|Hm]); try destruct Hm; left; vm_compute; discriminate.
+  - intros nl Hin. destruct Hin as [<-|[]]. intros m [].
+Qed.
 Example dtd_ok_no_ns : no_ns_defs dtd_ok n_e.
 Proof. intros x Hx. vm_compute in Hx. destruct Hx as [<-|[<-|[<-|[<-|[]]]]]; reflexivity. Qed.
 Example dtd_ok_attrs :
